@@ -12,3 +12,4 @@ pub fn available() -> bool {
 }
 smod!(auth, "sec_auth.rs");
 smod!(access, "sec_access.rs");
+smod!(mr, "sec_mr.rs");
